@@ -123,6 +123,10 @@ func genC15(out *Out, r *Rng, tier string, n int, shard int) {
 			g.noAliasTerms = true
 			undefNames = []string{"id", "type"}
 		}
+		if i%5 == 3 {
+			// two top-level nodes sharing paths: rejected, or else every field covered (entries == leaves == map)
+			emitCollisionDoc(out, NewDocGen(r, 1+r.Intn(2)), r, hPoseidon())
+		}
 		root := g.node(g.sch.Root, 0, r.Bool())
 		left := 1 + r.Intn(3)
 		for try := 0; try < 5 && countUndef(root) == 0; try++ {
